@@ -438,6 +438,103 @@ func init() {
 	ctl("c02-leaf-cut-iff", "C02.leaf", rd, "	if nullIndex != -1 {\n		bs = bs[:nullIndex]\n	}", "	if nullIndex != -1 && nullIndex < len(bs)-1 {\n		bs = bs[:nullIndex]\n	}", "tryTextNullLen:cut-iff-found")
 	ctl("c02-leaf-grow-only", "C02.leaf", dc, "	if len(*d.readBuf) < n {", "	if len(*d.readBuf) < n && n > 8 {", "SharedReadBuf:grow-only")
 	ctl("c02-leaf-bytecount-only", "C02.leaf", "pkg/bitio/bitio.go", "	if nBits%8 != 0 {\n		n++\n	}\n	return n", "	if nBits%8 != 0 && nBits > 8 {\n		n++\n	}\n	return n", "BitsByteCount:roundup-when-rem")
+	ctl("c02-leaf-reverse-swap", "C02.leaf", rd, "opp := len(a) - 1 - i", "opp := len(a) - i", "ReverseBytes:swap")
+	ctl("c02-leaf-reverse-half", "C02.leaf", rd, "for i := len(a)/2 - 1; i >= 0; i-- {", "for i := len(a)/2 - 1; i > 0; i-- {", "ReverseBytes:loop")
 	ctl("c02-leaf-narrow-shift", "C02.leaf", rd, "return float64(n) / float64(uint64(1<<fBits)), nil", "return float64(n) / float64(uint32(1<<fBits)), nil", "tryFPEndian:value")
 	ctl("c02-leaf-narrow-conv", "C02.leaf", rd, "		s = int64(n)\n	}\n\n	return s, nil", "		s = int64(int32(n))\n	}\n\n	return s, nil", "trySEndian")
+}
+
+// ---------------------------------------------------------------------------
+// in-place byte reversal
+
+// c02IsSlicesReverse: a call of the standard library's slices.Reverse (any instantiation).
+func c02IsSlicesReverse(cl *ssa.Call) bool {
+	f := cl.Common().StaticCallee()
+	if f == nil {
+		return false
+	}
+	if o := f.Origin(); o != nil {
+		f = o
+	}
+	return f.Name() == "Reverse" && f.Pkg != nil && f.Pkg.Pkg.Path() == "slices"
+}
+
+// oneReverse: the single in-place byte reversal of the function: decode.ReverseBytes (held to its
+// contract by ReverseBytes:swap/loop) or slices.Reverse.
+func (l *c02Lf) oneReverse() *ssa.Call {
+	if l.dead {
+		return nil
+	}
+	var cs []*ssa.Call
+	fw.EachInstr(l.fn, func(ins ssa.Instruction) {
+		if c, ok := ins.(*ssa.Call); ok && (fw.SxCallee(c.Common()) == "pkg/decode.ReverseBytes" || c02IsSlicesReverse(c)) {
+			cs = append(cs, c)
+		}
+	})
+	if len(cs) != 1 {
+		l.ru.Undecided(l.name+":call:pkg/decode.ReverseBytes", l.pos, fmt.Sprintf("%d byte reversal calls (decode.ReverseBytes / slices.Reverse; the rule expects exactly one)", len(cs)))
+		return nil
+	}
+	return cs[0]
+}
+
+// c02ReverseInPlace: decode.ReverseBytes reverses its argument in place: either it hands the slice
+// to slices.Reverse and does nothing else, or it exchanges a[i] and a[len-1-i] for exactly the
+// indices of the first half, in any of the usual loop shapes.
+func c02ReverseInPlace(l *c02Lf) {
+	var stores, conds []string
+	var calls []*ssa.Call
+	fw.EachInstr(l.fn, func(ins ssa.Instruction) {
+		switch x := ins.(type) {
+		case *ssa.Store:
+			stores = append(stores, l.env.Of(x.Addr)+" <- "+l.env.Of(x.Val))
+		case *ssa.If:
+			conds = append(conds, l.env.Of(x.Cond))
+		case *ssa.Call:
+			if _, builtin := x.Common().Value.(*ssa.Builtin); !builtin {
+				calls = append(calls, x)
+			}
+		}
+	})
+	sort.Strings(stores)
+	if len(stores) == 0 && len(conds) == 0 && len(calls) == 1 && c02IsSlicesReverse(calls[0]) {
+		ok := l.args(calls[0]) == "p0"
+		l.ru.Check(ok, l.name+":swap", l.pos, "slices.Reverse(a)", "slices.Reverse is applied to "+l.args(calls[0])+", must be the argument slice")
+		l.ru.Check(ok, l.name+":loop", l.pos, "whole slice (standard library)", "slices.Reverse must cover the whole argument slice")
+		return
+	}
+	half := "(/ (len p0) 2)"
+	type form struct {
+		i, j, what string
+		conds      []string
+	}
+	down := "phi{-1 + " + half + " | -1 + @0}"
+	up := "phi{0 | 1 + @0}"
+	top := "phi{-1 + (len p0) | -1 + @0}"
+	forms := []form{
+		{down, "-1 + (len p0) + -1*" + down, "i = len/2-1 .. 0", []string{"(>= " + down + " 0)", "(> " + down + " -1)"}},
+		{up, "-1 + (len p0) + -1*" + up, "i = 0 .. len/2-1", []string{"(> " + half + " " + up + ")", "(>= -1 + " + half + " " + up + ")", "(> -1 + (len p0) + -1*" + up + " " + up + ")"}},
+		{up, top, "i = 0.., j = len-1.. while i < j", []string{"(> " + top + " " + up + ")"}},
+	}
+	pick := -1
+	wantOf := func(f form) string {
+		w := []string{"(&idx p0 " + f.i + ") <- (idx p0 " + f.j + ")", "(&idx p0 " + f.j + ") <- (idx p0 " + f.i + ")"}
+		sort.Strings(w)
+		return strings.Join(w, " ; ")
+	}
+	got := strings.Join(stores, " ; ")
+	for k, f := range forms {
+		if got == wantOf(f) {
+			pick = k
+		}
+	}
+	if pick < 0 {
+		l.ru.Fail(l.name+":swap", l.pos, "the stores are "+got+"; a[i] and a[len-1-i] must be exchanged (e.g. "+wantOf(forms[0])+"), or the slice handed to slices.Reverse")
+		l.ru.Fail(l.name+":loop", l.pos, "exchange not recognised, so the index range is not decided")
+		return
+	}
+	f := forms[pick]
+	l.ru.Ok(l.name+":swap", l.pos, "a[i] and a[len-1-i] are exchanged, "+f.what)
+	l.ru.Check(len(calls) == 0 && len(conds) == 1 && c02HasAny(f.conds, conds[0]), l.name+":loop", l.pos, "loop covers exactly the first half ("+f.what+")",
+		"loop condition(s) "+strings.Join(conds, " ; ")+", must be "+f.conds[0]+" (exactly the first half, "+f.what+")")
 }
